@@ -116,6 +116,19 @@ void runSt(const json& ep)
                     st.update(*p);
             }
         }
+        else if (name == "sys.tecmp")
+        {
+            // a TECMP status message straight into the system's decoder; what it converts to updates the tracker
+            const std::vector<uint8_t> f = bytesOf(op.at("frame"));
+            const auto out = sys.dec.decode(f.data(), f.size());
+            o.obj().kv("e", "sys.tecmp").kv("dev", op.at("dev").get<int>()).bytes("frame", f);
+            o.arr("out");
+            for (const auto& p : out)
+                snapPacket(o, *p);
+            o.endArr();
+            for (const auto& p : out)
+                st.update(*p);
+        }
         else if (name == "clear")
         {
             st.clear();
